@@ -411,6 +411,21 @@ func (x *Exec) prepareCall(fr *frame, call *ssa.CallCommon) (fn Value, args []Va
 		fn = v
 	} else {
 		recv := v.(Iface)
+		if recv.t == nil && call.Method.Pkg() != nil && x.eng.isNoopPkg(call.Method.Pkg().Path()) {
+			// nil value of an interface declared in a no-op package (log.Logger, opentracing.Span,
+			// metrics.Counter ... as returned by the no-op constructors): its methods are no-ops too
+			sig := call.Method.Type().(*types.Signature)
+			fn = NativeFn(func(x *Exec, fr *frame, a []Value) Value {
+				if sig.Results().Len() == 0 {
+					return nil
+				}
+				return zero(sig.Results())
+			})
+			for _, a := range call.Args {
+				args = append(args, fr.get(a))
+			}
+			return
+		}
 		if recv.t == nil {
 			x.tpanic("invalid memory address or nil pointer dereference (method call on nil interface " + call.Method.Name() + ") in " + fr.fn.String())
 		}
